@@ -356,6 +356,7 @@ dt_bizda_t UNREACH___bizda_add_d(dt_bizda_t d, int n) UNREACH_CONTRACT;
 dt_bizda_t UNREACH___bizda_add_w(dt_bizda_t d, int n) UNREACH_CONTRACT;
 struct dt_d_s UNREACH_dt_dadd_b(struct dt_d_s d, int n) UNREACH_CONTRACT;
 int UNREACH___ymcw_cmp(dt_ymcw_t d1, dt_ymcw_t d2) UNREACH_CONTRACT;
+dt_dow_t UNREACH___bizda_get_wday(dt_bizda_t that) UNREACH_CONTRACT;
 dt_ymcw_t UNREACH___ymcw_add_m(dt_ymcw_t d, int n) UNREACH_CONTRACT;
 dt_bizda_t UNREACH___bizda_add_m(dt_bizda_t d, int n) UNREACH_CONTRACT;
 dt_ymcw_t UNREACH___ymcw_add_y(dt_ymcw_t d, int n) UNREACH_CONTRACT;
